@@ -4,7 +4,7 @@ VERIF = os.path.dirname(os.path.dirname(os.path.abspath(__file__)))
 
 CHECKS = {
  "C01": ("model_checking", "2", "TLC model of Manager.tla + replay of every generated transition on the real Manager (contents, definitions, knob state after each call)",
-         "Manager.tla (history-free reference machine) is trusted; small universes (4-6 leaves), depth 2 exhaustive + simulated fans quick, depth 3 + 10 thorough"),
+         "Manager.tla (history-free reference machine) is trusted; small universes (3-6 leaves), depth 2 exhaustive + simulated fans quick, depth 3 + 10 thorough; universe U7 adds nested updates (a task whose action assigns through the manager: FlatOrders), 4 calls deep with register / unregister"),
  "C02": ("model_checking", "2", "TLC model + replay observing the ordered Task.run calls: permutation of the spec's Triggered set and linear extension of Produces, under several hash seeds; Toposort.tla (sorting.py transcribed; TLC checks reverse post-order of every acyclic graph over 3-4 vertices is topological and lists exactly the reachable set) with every finished run executed on the real toposort()",
          "order legality is judged by the spec's Produces relation emitted with each transition; structural-cycle steps are a recorded known finding"),
  "C03": ("model_checking", "2", "TLC model + replay comparing index supports, _expr/_tasks/_find_dependant_targets, verify() and a fresh manager with the spec's derived indices after every step",
@@ -12,11 +12,11 @@ CHECKS = {
  "C17": ("model_checking", "2", "TLC model with Freeze/Unfreeze + replay: refusals (ValueError, projection unchanged), propagation of plain values while frozen, history-free behaviour after unfreeze",
          "as C01; refresh on a frozen manager may either refuse or succeed as long as nothing observable changes"),
  "C18": ("fault_enumeration", "2", "TLC fault model (every crash position of every reachable update) + replay with fault-injecting containers",
-         "faults are injected at the first write of the k-th scheduled task (and the initial write); multi-write partial failures of a LinearKnob are out of the enumerated positions"),
+         "faults are injected at the first write of the k-th scheduled task (and the initial write; an observer task raises the fault itself); with nested updates (universe U7) at every position of the flat run order; multi-write partial failures of a LinearKnob are out of the enumerated positions"),
  "C11": ("model_checking", "2", "Manager.tla Transfer actions dumpload / copy_plain / copy_bind / copy_keep: the new manager's projection must equal the spec state and every later step on it must conform; plain and hostile keys",
          "expression-language part (every node class, literal catalogue) is decided by Expr.tla, see evidence; manager menus hold 14-21 expressions"),
  "C12": ("model_checking", "2", "Manager.tla Transfer actions pickle_copy / pickle_orig: pickle round trip as a stuttering step, behaviour continues on copy or original, the other side must not move",
-         "independence is checked by keeping the other side's projection and comparing it after every later step"),
+         "independence is checked by keeping the other side's projection and comparing it after every later step; further bindings: numpy keys, the default AttrDict container (attribute and item views of one storage), universe U8 (a linear knob whose remembered source value lags behind after a fault)"),
  "C13": ("translation_validation", "2", "per-program validation of mk_fun/gen_fun output against Manager.tla's GenFun action (defined as sequential assignment; TLC asserts the batch formulation agrees)",
          "1- and 2-argument setters over undefined leaves at every reachable state; source text parsed line by line; structural-cycle orders are the recorded known finding"),
  "C20": ("exploration", "2", "the TLC-generated programs of Manager.tla executed under {compiled, pure Python} x PYTHONHASHSEED values; per-step transcripts (exception class, contents, dump() text) must be identical in every configuration, and each run must conform to the spec",
@@ -32,7 +32,7 @@ CHECKS = {
  "C09": ("model_checking", "6", "OptProto.tla (step/solve/reload/tag/clear_log/enable/disable protocol over an abstract solver and an action raising at any evaluation) explored exhaustively over the design environments of MC_OptProto.tla for C09_ok / C09_restore, and bound by OptProtoTrace.tla (for every recorded call TLC searches the protocol's micro-steps for a path to the logged state; environment measured by the oracle); Optimizer.tla trace specification: solve() calls recorded on real Optimize objects (TLC-enumerated call sequences x generated merit-function families x fault positions) must satisfy the named clauses: normal return => matched (independent re-evaluation), failure + restore_if_fail => iteration-0 knobs and flags",
          "measurements (tolerances, penalties, ulp distances) come from a harness oracle; TLC decides the clauses on their integer abstractions; 400 problems quick / 2000 thorough; design model <= 2 calls / 1 fault quick, <= 2 calls / 2 faults + reachability probes + liveness thorough"),
  "C10": ("model_checking", "6", "OptProto.tla design exploration (C10_inlim / C10_flags / C10_fixed) and trace binding OptProtoTrace.tla as for C09; Optimizer.tla trace specification: every logged row within the closed limits, Jacobian steps bounded by max_step (ppm ratios), disabled knobs bit-identical, temporarily disabled flags active again, twin problems prove a disabled target has no influence, calls accept their documented arguments",
-         "as C09; unit weights exact, other weights 4 ulp / 20 ppm"),
+         "as C09; unit weights exact, other weights 4 ulp / 20 ppm; plus 500 (4000) simulated behaviours of 8 (12) calls over OptCalls.tla's LongMenu (steps with two one-call flag arguments)"),
  "C15": ("model_checking", "6", "OptProto.tla design exploration (C15_best / C15_reload / C15_last) and trace binding OptProtoTrace.tla as for C09; Optimizer.tla trace specification: reload(i) restores knobs (ulp) and flags and reproduces the row's penalty and targets; every logged row reproducible by the oracle; step(take_best) ends within tolerance or on the minimum-penalty row; the log stays rectangular after failures",
          "as C09; all rows of all logs produced by the enumerated call sequences, including failing solves and faults in the user's action"),
  "C19": ("model_checking", "7", "Madx.tla: syntax trees of the MAD-X grammar grown production by production, their minimal- and fully-parenthesised token sequences and exact immediate / deferred values; every string parsed and evaluated by the real MadxEval immediately and deferred (item and attribute mode), compared with the spec and with Python on the tree, then pushed through the manager and re-compared after each name changed",
